@@ -32,6 +32,8 @@ func main() {
 	verif := flag.String("verif", "/verif", "verif root (evidence, known findings)")
 	explain := flag.String("explain", "", "print a violations file")
 	list := flag.Bool("list", false, "list properties")
+	child := flag.Bool("child", false, "internal: run one variant and print a CHILD-RESULT line")
+	patch := flag.String("patch", "", "internal: unified diff applied as an in-memory overlay (child mode)")
 	flag.Parse()
 	// /repo needs go >= 1.25 while the sandbox's default go is older: put the
 	// pre-installed newer toolchain first on PATH for the `go list` that
@@ -77,6 +79,9 @@ func main() {
 		fmt.Printf("unknown property %q\n", *prop)
 		os.Exit(2)
 	}
+	if *child {
+		os.Exit(runChild(*prop, *repo, *verif, *patch))
+	}
 	r := NewReport(*prop, *tier)
 	code := func() (code int) {
 		var c *Ctx
@@ -94,6 +99,9 @@ func main() {
 			return r.Finish(*verif, map[string]any{})
 		}
 		def.run(c, r)
+		if *tier == "thorough" {
+			runThorough(*prop, *repo, *verif, r)
+		}
 		info := map[string]any{
 			"packages_loaded":  len(c.Pkgs),
 			"functions_loaded": c.nFuncs,
